@@ -266,7 +266,7 @@ func (rw *rewriter) rewriteFile() error {
 		if id, ok := sel.X.(*ast.Ident); ok {
 			if pn, ok := rw.info.Uses[id].(*types.PkgName); ok {
 				path := pn.Imported().Path()
-				if (path == "sync/atomic" && !modelledAtomic[sel.Sel.Name]) || (path == "sync" && (sel.Sel.Name == "Cond" || sel.Sel.Name == "Map" || sel.Sel.Name == "OnceFunc" || sel.Sel.Name == "OnceValue" || sel.Sel.Name == "NewCond")) {
+				if (path == "sync/atomic" && !modelledAtomic[sel.Sel.Name]) || (path == "sync" && (sel.Sel.Name == "Map" || sel.Sel.Name == "OnceFunc" || sel.Sel.Name == "OnceValue")) {
 					if rw.opts.Sync || rw.opts.Access {
 						rw.unmodelled(sel, path+"."+sel.Sel.Name)
 					}
